@@ -119,7 +119,7 @@ def run(ctx):
     role_fns = {f for f, _ in OUTPUT_ROLE + DRAIN_ROLE} | {JT + "::output_refs"}
     other = sum(len(v) for k, v in by_fn.items() if k not in role_fns)
     r.notes.append(f"{other} further JoinType case analyses are extracted but not in a role table (information only)")
-    return [r, rule_flags(facts), rule_optab(facts), rule_condkeep(facts), rule_nullkey(facts)]
+    return [r, rule_flags(facts), rule_optab(facts), rule_condkeep(facts), rule_nullkey(facts), rule_eqidx(facts)]
 
 
 def rule_nullkey(facts):
@@ -177,6 +177,61 @@ def rule_nullkey(facts):
     r.floor = 0
     if nfn < 25:
         r.missing_anchor(f"hash join module functions (found {nfn}, expected at least 25)")
+    return r
+
+
+def rule_eqidx(facts):
+    """The join hash table hashes the *equality* keys; `equality_columns` lists them by their position among all join keys (equalities and
+    inequalities share one key layout). The recorded position therefore has to be the running count of all keys - the length of a vector
+    that gets one push per condition - not the count of equalities so far: with an inequality written first, the two differ and build and
+    probe side hash a different column than the one compared for equality."""
+    from .mir import Fn
+    r = RuleResult("C06-EQIDX", "a position pushed into a conditionally filled index list of the join hash table is the length of a vector that is pushed once per "
+                   "loop iteration (the position among all keys), never the list's own length", floor=1)
+    HJ = OPS + "hash_join::"
+    for rec in facts.fns_matching(lambda i: i.startswith(HJ) and "::tests::" not in i):
+        if "Vec::<T, A>::push" not in str(rec["bbs"]) or "Vec::<T, A>::len" not in str(rec["bbs"]):
+            continue
+        fn = Fn(rec)
+        pushes = [c for c in fn.calls() if c.name.endswith("Vec::<T, A>::push") and len(c.args) == 2]
+
+        def vec_root(op, at):
+            o = fn.origin(op, at=at)
+            if o[0] in ("local", "arg"):
+                return (o[0], o[1])
+            if o[0] == "call":
+                return ("call", o[1].bb)
+            return None
+
+        def vname(root):
+            if root[0] == "call":
+                c0 = next((x for x in fn.calls() if x.bb == root[1]), None)
+                return fn.local_name(c0.dst[0]) if c0 is not None else "?"
+            return fn.local_name(root[1])
+        for c in pushes:
+            vo = fn.origin(c.args[1], at=c.bb)
+            if not (vo[0] == "call" and vo[1].name.endswith("Vec::<T, A>::len")):
+                continue
+            dst = vec_root(c.args[0], c.bb)
+            src = vec_root(vo[1].args[0], vo[1].bb)
+            if dst is None or src is None:
+                continue
+            # only pushes inside a loop, under a condition (not executed on every iteration)
+            loop = {x for x in fn.reachable_from(c.bb) if c.bb in fn.reachable_from(x)}
+            if not loop:
+                continue
+            r.functions.add(fn.id)
+            r.call_sites += 1
+            # `src` must be pushed on every iteration: some push block of src lies on every cycle through the loop header region,
+            # i.e. removing src's push blocks breaks every cycle through c.bb
+            src_push = [p.bb for p in pushes if vec_root(p.args[0], p.bb) == src]
+            every_iter = bool(src_push) and c.bb not in {x for x in fn.reachable_from(c.target, avoid=src_push)} if c.target is not None else False
+            ok = src != dst and every_iter
+            r.inst({"fn": fn.id, "line": c.line, "list": vname(dst), "position_from": vname(src), "source_pushed_every_iteration": every_iter}, ok)
+            if not ok:
+                why = "its own length" if src == dst else f"the length of `{vname(src)}`, which is not extended on every iteration"
+                r.violate(fn.id, f"filtered-position:{vname(dst)}", f"`{vname(dst)}` records {why} (line {c.line}): that is a position in the filtered list, not "
+                          "among all join keys, so a different key column is hashed than the one compared for equality when an inequality comes first", rec["file"], c.line)
     return r
 
 
